@@ -281,7 +281,7 @@ class C19(Sim):
     THOROUGH_RUNS = 300000
     BLOCK = 20
     ASSUMPTIONS = [
-        "inputs are finite and moderate: |coordinates| <= 1e4, radii in [1e-3, 1e3], 1 <= count <= 2000 per call, <= 20000 draws per run",
+        "inputs are finite and moderate: |coordinates| <= 1e4, radii in [1e-3, 1e3], 0 <= count <= 2000 per call, <= 20000 draws per run",
         "boxes have strictly positive extent in every dimension (AABB.is_empty() is documented to make sample_AABB fail)",
         "sphere/ball centres are 3-D (the samplers are documented as 3D); centres are passed as mouette.Vec or numpy arrays",
         "point-cloud return is requested for boxes of dimension <= 3 only (dimension > 3 is documented to raise)",
@@ -433,8 +433,8 @@ class C19(Sim):
     # ================================================================== proposing events
     def _count(self, r):
         left = MAX_DRAWS - self.draws
-        cls = r.wchoice(["one", "tiny", "small", "medium", "large"], [1, 2, 6, 3, 1 if not self.cfg["big_n"] else 4])
-        n = {"one": 1, "tiny": r.randint(2, 5), "small": r.randint(6, 60), "medium": r.randint(61, 400), "large": r.randint(401, 2000)}[cls]
+        cls = r.wchoice(["zero", "one", "tiny", "small", "medium", "large"], [0.4, 1, 2, 6, 3, 1 if not self.cfg["big_n"] else 4])
+        n = {"zero": 0, "one": 1, "tiny": r.randint(2, 5), "small": r.randint(6, 60), "medium": r.randint(61, 400), "large": r.randint(401, 2000)}[cls]
         return max(0, min(n, left))
 
     def _centre(self, r):
